@@ -13,7 +13,9 @@
 //! the two diagonal flags; horizontal/vertical/wrap/rotation; number-format CODE; locked/
 //! hidden).  Nothing else of a `Style` is compared (not: font family/charset/scheme/
 //! vertAlign, numFmtId, xfId, the vertical/horizontal "inside" edges that only exist in
-//! differential formats, gradient fills, presence-vs-absence of an attribute).
+//! differential formats, presence-vs-absence of an attribute).  A gradient fill (angle + colour
+//! stops) is a fill too: it is folded into the one attribute `fill.pattern` as
+//! `gradient deg=.. [pos=colour; ..]` with fg/bg `none`.
 //!
 //! Normalisations (each one is needed because the format itself makes the two sides mean the
 //! same; without them the oracle would demand more than the statement):
@@ -50,7 +52,7 @@ use proptest::prelude::*;
 use serde::{Deserialize, Serialize};
 use std::str::FromStr;
 use umya_spreadsheet::{
-    Alignment, Border, Color, EnumTrait, Fill, Font, HorizontalAlignmentValues, NumberingFormat,
+    Alignment, Border, Color, EnumTrait, Fill, Font, GradientStop, HorizontalAlignmentValues, NumberingFormat,
     PatternFill, PatternValues, Protection, Style, UnderlineValues, VerticalAlignmentValues,
 };
 
@@ -191,6 +193,16 @@ pub struct FillSpec {
     pub pattern: Option<u8>,
     pub fg: Option<ColorSpec>,
     pub bg: Option<ColorSpec>,
+    /// when present the fill is a gradient fill and pattern/fg/bg are not used
+    #[serde(default)]
+    pub gradient: Option<GradSpec>,
+}
+
+/// Linear gradient fill: angle and colour stops (position 0..1, colour).
+#[derive(Debug, Clone, Serialize, Deserialize, PartialEq)]
+pub struct GradSpec {
+    pub degree: Num,
+    pub stops: Vec<(Num, Option<ColorSpec>)>,
 }
 
 #[derive(Debug, Clone, Serialize, Deserialize, PartialEq, Default)]
@@ -301,7 +313,20 @@ pub fn apply(s: &StyleSpec) -> Style {
         }
         st.set_font(font);
     }
-    if let Some(f) = &s.fill {
+    if let Some(FillSpec { gradient: Some(g), .. }) = &s.fill {
+        let mut fill = Fill::default();
+        let gf = fill.get_gradient_fill_mut();
+        gf.set_degree(g.degree.0);
+        for (pos, col) in &g.stops {
+            let mut stop = GradientStop::default();
+            stop.set_position(pos.0);
+            if let Some(c) = col {
+                stop.set_color(apply_color(c));
+            }
+            gf.set_gradient_stop(stop);
+        }
+        st.set_fill(fill);
+    } else if let Some(f) = &s.fill {
         let mut pf = PatternFill::default();
         if let Some(p) = f.pattern {
             pf.set_pattern_type(PatternValues::from_str(PATTERNS[p as usize % PATTERNS.len()]).unwrap());
@@ -539,6 +564,11 @@ fn font_proj(f: &Font) -> Vec<String> {
     ]
 }
 
+fn grad_str(degree: f64, stops: impl Iterator<Item = (f64, String)>) -> String {
+    let st: Vec<String> = stops.map(|(p, c)| format!("{}={}", f64s(p), c)).collect();
+    format!("gradient deg={} [{}]", f64s(degree), st.join("; "))
+}
+
 fn fill_proj(f: &Fill) -> Vec<String> {
     match (f.get_pattern_fill(), f.get_gradient_fill()) {
         (Some(p), None) => vec![
@@ -547,7 +577,13 @@ fn fill_proj(f: &Fill) -> Vec<String> {
             p.get_background_color().map_or("none".to_string(), color_proj),
         ],
         (None, None) => vec!["none".to_string(), "none".to_string(), "none".to_string()],
-        _ => vec!["gradient".to_string(), "gradient".to_string(), "gradient".to_string()],
+        // a gradient fill is folded into the single attribute fill.pattern
+        (None, Some(g)) => vec![
+            grad_str(*g.get_degree(), g.get_gradient_stop().iter().map(|s| (*s.get_position(), color_proj(s.get_color())))),
+            "none".to_string(),
+            "none".to_string(),
+        ],
+        _ => vec!["pattern+gradient".to_string(), "?".to_string(), "?".to_string()],
     }
 }
 
@@ -653,6 +689,11 @@ pub fn expected(s: &StyleSpec) -> StyleProj {
         None => v.extend_from_slice(&d.0[0..7]),
     }
     match &s.fill {
+        Some(FillSpec { gradient: Some(g), .. }) => {
+            v.push(grad_str(g.degree.0, g.stops.iter().map(|(p, c)| (p.0, expected_color(c)))));
+            v.push("none".to_string());
+            v.push("none".to_string());
+        }
         Some(f) => {
             v.push(f.pattern.map_or("none", |p| PATTERNS[p as usize % PATTERNS.len()]).to_string());
             v.push(expected_color(&f.fg));
@@ -846,11 +887,26 @@ pub fn mutate(base: &StyleSpec, k: usize, variant: u8) -> StyleSpec {
             }
         }
         8..=10 => {
-            let f = s.fill.get_or_insert(FillSpec { pattern: Some(0), fg: None, bg: None });
-            match k {
-                8 => f.pattern = idx_other(PATTERNS.len(), f.pattern, variant),
-                9 => f.fg = color_variant(&f.fg, variant),
-                _ => f.bg = color_variant(&f.bg, variant),
+            let f = s.fill.get_or_insert(FillSpec { pattern: Some(0), fg: None, bg: None, gradient: None });
+            if let Some(g) = &mut f.gradient {
+                // a gradient is one attribute of the projection: change exactly one part of it
+                match k {
+                    8 => g.degree = Num(pick_other(&[0.0, 45.0, 90.0, 135.0, 180.0, 270.0, 22.5], &g.degree.0, variant)),
+                    9 => match g.stops.first_mut() {
+                        Some(st) => st.1 = color_variant(&st.1, variant),
+                        None => g.stops.push((Num(0.0), color_variant(&None, variant))),
+                    },
+                    _ => match g.stops.last_mut() {
+                        Some(st) => st.0 = Num(pick_other(&[1.0, 0.5, 0.75, 0.0], &st.0 .0, variant)),
+                        None => g.stops.push((Num(1.0), None)),
+                    },
+                }
+            } else {
+                match k {
+                    8 => f.pattern = idx_other(PATTERNS.len(), f.pattern, variant),
+                    9 => f.fg = color_variant(&f.fg, variant),
+                    _ => f.bg = color_variant(&f.bg, variant),
+                }
             }
         }
         11..=22 => {
@@ -958,7 +1014,7 @@ pub fn adversarial(kind: u8, base: &StyleSpec, a: u8, b: u8) -> Vec<StyleSpec> {
                 match a % 3 {
                     0 => z.font.get_or_insert_with(default_font_spec).color = c,
                     1 => {
-                        let f = z.fill.get_or_insert(FillSpec { pattern: Some(1), fg: None, bg: None });
+                        let f = z.fill.get_or_insert(FillSpec { pattern: Some(1), fg: None, bg: None, gradient: None });
                         f.fg = c;
                     }
                     _ => {
@@ -1005,7 +1061,7 @@ pub fn adversarial(kind: u8, base: &StyleSpec, a: u8, b: u8) -> Vec<StyleSpec> {
             let mut out = Vec::new();
             for (fg, bg) in [(c1.clone(), None), (None, c1.clone()), (c1.clone(), c2.clone()), (c2.clone(), c1.clone()), (c2.clone(), None), (None, c2.clone())] {
                 let mut z = base.clone();
-                z.fill = Some(FillSpec { pattern: p, fg, bg });
+                z.fill = Some(FillSpec { pattern: p, fg, bg, gradient: None });
                 out.push(z);
             }
             return out;
@@ -1102,19 +1158,33 @@ pub fn font_spec() -> BoxedStrategy<FontSpec> {
 
 /// `dirty_fill`: also generate pattern none/absent together with a foreground colour
 pub fn fill_spec(dirty_fill: bool) -> BoxedStrategy<FillSpec> {
-    (
+    let pattern_fill = (
         prop_oneof![1 => Just(None), 3 => Just(Some(1u8)), 1 => Just(Some(0u8)), 4 => (0u8..PATTERNS.len() as u8).prop_map(Some)],
         prop::option::weighted(0.7, color_spec()),
         prop::option::weighted(0.4, color_spec()),
     )
         .prop_map(move |(pattern, fg, bg)| {
-            let mut f = FillSpec { pattern, fg, bg };
+            let mut f = FillSpec { pattern, fg, bg, gradient: None };
             if !dirty_fill && f.fg.is_some() && f.pattern.unwrap_or(0) == 0 {
                 f.pattern = Some(1);
             }
             f
         })
-        .boxed()
+        .boxed();
+    let grad = (
+        prop::sample::select(vec![0.0, 45.0, 90.0, 135.0, 180.0, 270.0, 22.5]),
+        prop::collection::vec(
+            (prop::sample::select(vec![0.0, 0.25, 0.5, 0.75, 1.0, 0.3333333333333333]), prop::option::weighted(0.9, color_spec())),
+            0..=3,
+        ),
+    )
+        .prop_map(|(degree, stops)| FillSpec {
+            pattern: None,
+            fg: None,
+            bg: None,
+            gradient: Some(GradSpec { degree: Num(degree), stops: stops.into_iter().map(|(p, c)| (Num(p), c)).collect() }),
+        });
+    prop_oneof![8 => pattern_fill, 1 => grad].boxed()
 }
 
 pub fn edge_spec() -> BoxedStrategy<EdgeSpec> {
